@@ -289,6 +289,7 @@ class OpsWorld(World):
         nops = 0
         nprox = 0
         applies = []  # (step index, op index)
+        pool = []  # (spec or None, ishape or None, oshape or None) per pool operator
 
         def buf():
             return {"seed": rng.getrandbits(48), "kind": rng.choice(opgen.KINDS),
@@ -298,18 +299,51 @@ class OpsWorld(World):
         for _ in range(nsteps):
             r = rng.random()
             if nops == 0 or (r < 0.18 and nops < 12):
-                if nops and rng.random() < 0.25:
-                    # combine existing pool operators (shares cached children)
+                if nops and rng.random() < 0.35:
+                    # combine existing pool operators (shares cached children and operand lists)
                     j = rng.randrange(nops)
-                    kind = rng.choice(["H", "N", "neg", "conj", "scaleL", "HN", "NH"])
+                    kind = rng.choice(["H", "N", "neg", "conj", "scaleL", "HN", "NH", "addref", "addref", "subref",
+                                       "refadd", "composeref", "refcompose", "stackref"])
                     ref = {"k": "ref", "i": j}
-                    spec = {"H": {"k": "H", "op": ref}, "N": {"k": "N", "op": ref}, "neg": {"k": "neg", "op": ref},
-                            "conj": {"k": "conj", "op": ref},
-                            "scaleL": {"k": "scale", "a": [0.5, -2.0], "side": "l", "op": ref},
-                            "HN": {"k": "N", "op": {"k": "H", "op": ref}},
-                            "NH": {"k": "H", "op": {"k": "N", "op": ref}}}[kind]
+                    jspec, jin, jout = pool[j]
+                    spec = None
+                    shp = (None, None)
+                    if kind in ("addref", "subref", "refadd"):
+                        if jout is not None and jin == jout:
+                            other = opgen.gen_leaf(rng, jin, preserve=True)[0]
+                        elif jspec is not None:
+                            other = opgen.gen_like(rng, jspec)
+                        else:
+                            other = None
+                        if other is not None:
+                            ops_ = [ref, other] if kind != "refadd" else [other, ref]
+                            spec = {"k": "sub" if kind == "subref" else "add", "ops": ops_}
+                            shp = (jin, jout)
+                    elif kind == "composeref" and jin is not None:
+                        other, oo = opgen.gen_leaf(rng, jin, preserve=True)
+                        spec = {"k": "compose", "ops": [ref, other]}
+                        shp = (jin, jout)
+                    elif kind == "refcompose" and jout is not None:
+                        other, oo = opgen.gen_leaf(rng, jout, allow_unknown=False)
+                        spec = {"k": "compose", "ops": [other, ref]}
+                        shp = (jin, oo)
+                    elif kind == "stackref" and jin is not None and jout is not None and jin == jout:
+                        other = opgen.gen_leaf(rng, jin, preserve=True)[0]
+                        spec = {"k": rng.choice(["vstack", "hstack"]), "ops": [ref, other], "axis": None}
+                        shp = (None, None)
+                    if spec is None:
+                        kind = rng.choice(["H", "N", "neg", "conj", "scaleL", "HN", "NH"]) if kind not in ("H", "N", "neg", "conj", "scaleL", "HN", "NH") else kind
+                        spec = {"H": {"k": "H", "op": ref}, "N": {"k": "N", "op": ref}, "neg": {"k": "neg", "op": ref},
+                                "conj": {"k": "conj", "op": ref},
+                                "scaleL": {"k": "scale", "a": [0.5, -2.0], "side": "l", "op": ref},
+                                "HN": {"k": "N", "op": {"k": "H", "op": ref}},
+                                "NH": {"k": "H", "op": {"k": "N", "op": ref}}}[kind]
+                        shp = {"H": (jout, jin), "N": (jin, jin), "neg": (jin, jout), "conj": (jin, jout),
+                               "scaleL": (jin, jout), "HN": (jout, jout), "NH": (jin, jin)}[kind]
+                    pool.append((None, shp[0], shp[1]))
                 else:
-                    spec, _, _ = opgen.gen_tree(rng, rng.choice([0, 0, 1, 1, 2, 3]))
+                    spec, si, so = opgen.gen_tree(rng, rng.choice([0, 0, 1, 1, 2, 3]))
+                    pool.append((spec, si, so))
                 sched.append({"op": "build", "spec": spec})
                 nops += 1
                 continue
@@ -324,9 +358,11 @@ class OpsWorld(World):
             kind = rng.choice(["apply", "apply", "apply", "again", "equal", "out", "param", "take_H", "take_N", "lin", "lin"])
             if kind == "take_H":
                 sched.append({"op": "take_H", "i": j})
+                pool.append((None, pool[j][2], pool[j][1]))
                 nops += 1
             elif kind == "take_N":
                 sched.append({"op": "take_N", "i": j})
+                pool.append((None, pool[j][1], pool[j][1]))
                 nops += 1
             elif kind == "lin":
                 sched.append({"op": "lin", "i": j, "a": rng.choice([[0.5, 1.5], [-1.0, 2.0], [2.0, -0.75], [0.0, 1.0]]),
